@@ -421,7 +421,7 @@ Definition api_ctl (run : N) (o : ctlop) : M unit :=
 Inductive eop :=
 | OTrigger (fid : N) (start seed : Z) (p : plan)
 | OCallback (fid : N) (status : Z) (p : plan)
-| OCtl (run : N) (o : ctlop) (p : plan)
+| OCtl (run : N) (o : ctlop) (ui : bool) (p : plan)   (* ui: through the web UI update handler (only success / failure is observable) *)
 | OAdvance (d : Z)
 | OStep (inst : Z) (u : eunit) (p : plan)
 | OCrash (inst : Z)
@@ -438,7 +438,9 @@ Definition run_op (w : world) (o : eop) : world * list tok :=
   match o with
   | OTrigger fid start seed p => run_api w p (api_trigger fid start seed)
   | OCallback fid status p => run_api w p (api_callbacks fid status (ec_cbs c) 0)
-  | OCtl run op p => run_api w p (api_ctl run op)
+  | OCtl run op ui p =>
+    let (w', t) := run_api w p (api_ctl run op) in
+    (w', if ui then map (fun x => match x with TApi z => TApi (if z =? 0 then 0 else 1) | _ => x end) t else t)
   | OAdvance d => (set_now w (w_now w + d), [])
   | OStep inst u p =>
     let ps := get_pstate w (inst, u) in
